@@ -80,6 +80,15 @@ def _universe_of(ctx: Ctx, f: Func, e: ast.AST, env: Dict[str, ast.AST]) -> Opti
     e = resolve_local(e, env)
     if isinstance(e, ast.Name) and e.id in f.module.consts and len(f.module.consts[e.id]) == 1:
         e = f.module.consts[e.id][0]  # module-level constant (`_ALL_PORTS = range(1, 65535 + 1)`)
+    if isinstance(e, ast.Call) and isinstance(e.func, ast.Name) and not e.args and not e.keywords:
+        # `all_ports()`: a closure of the function (or a module function) without parameters whose body is one return
+        cands = [n for n in ast.walk(f.node) if isinstance(n, ast.FunctionDef) and n is not f.node and n.name == e.func.id]
+        if not cands and e.func.id in f.module.functions:
+            cands = [f.module.functions[e.func.id].node]
+        if len(cands) == 1 and not (cands[0].args.args or cands[0].args.vararg or cands[0].args.kwarg or cands[0].args.kwonlyargs or cands[0].args.posonlyargs):
+            body = [st for st in cands[0].body if not (isinstance(st, ast.Expr) and isinstance(st.value, ast.Constant))]
+            if len(body) == 1 and isinstance(body[0], ast.Return) and body[0].value is not None:
+                e = body[0].value
     if isinstance(e, ast.Call) and isinstance(e.func, ast.Name) and e.func.id == "list" and len(e.args) == 1:
         e = e.args[0]
     if isinstance(e, ast.Call) and isinstance(e.func, ast.Name) and e.func.id == "range" and len(e.args) == 2:
